@@ -12,6 +12,8 @@ package main
 // transport returns a chosen ERROR VALUE (cli_faultpeer.go: io.EOF as x/crypto/ssh's channel does, wrapped
 // EOFs, io.ErrUnexpectedEOF, io.ErrClosedPipe, os.ErrDeadlineExceeded, *net.OpError{EPIPE|ECONNRESET}, …):
 // a transport error that looks like the protocol's end-of-file / end-of-listing marker must still be an error.
+// The failing reader hands out that value in a Read call of its own or together with the last bytes before the cut
+// (Tail > 0: n > 0 and the error in ONE call — a reply completed by those bytes has been received).
 // Cases run sequentially in child processes so that the goroutine table after Close belongs to one case only,
 // and a panic (“send on closed channel”, …) is observed as the child's exit.
 
@@ -55,9 +57,14 @@ type c04Case struct {
 	Exit string `json:"exit,omitempty"`
 	// Op "flood" (c04_atclose.go): At calls in flight on as many goroutines, Fault close | cut+close | err+close, under
 	// GOMAXPROCS Procs, Trials independent trials (the case stops at the first one that fails).
-	Procs  int    `json:"procs,omitempty"`
-	Trials int    `json:"trials,omitempty"`
-	Opt    string `json:"opt,omitempty"` // option variant (cli_ops.go: which MaxPacket constructor, UseFstat, UseConcurrentReads/Writes, MaxConcurrentRequestsPerFile); "" = MaxPacketUnchecked + the operation's own options
+	Procs  int `json:"procs,omitempty"`
+	Trials int `json:"trials,omitempty"`
+	// Tail > 0 (faults cut and err over pipes): the READ behaviour of the failing transport is "data+err" — the last Tail
+	// bytes before the cut (at most the part of the frame the cut falls into or ends) are returned by the very Read
+	// call that returns the terminal error (n > 0 together with io.EOF resp. the error value), as io.Reader allows;
+	// 0: the historical behaviour, the error comes from a Read call of its own.
+	Tail int    `json:"tail,omitempty"`
+	Opt  string `json:"opt,omitempty"` // option variant (cli_ops.go: which MaxPacket constructor, UseFstat, UseConcurrentReads/Writes, MaxConcurrentRequestsPerFile); "" = MaxPacketUnchecked + the operation's own options
 }
 
 type c04Call struct {
@@ -74,8 +81,9 @@ type c04Res struct {
 	NReq     int       `json:"nreq,omitempty"`
 	NWrites  int       `json:"nwrites,omitempty"` // Write calls of the client after the handshake (dry run: how many there are to fail)
 	Calls    []c04Call `json:"calls,omitempty"`
-	CutAt    int       `json:"cut_at"`    // bytes really delivered before the stream ended
-	InFlight int       `json:"in_flight"` // requests received and unanswered when the stream ended
+	CutAt    int       `json:"cut_at"`             // bytes really delivered before the stream ended
+	DataErr  int       `json:"data_err,omitempty"` // Read calls of the client that returned data together with the terminal error
+	InFlight int       `json:"in_flight"`          // requests received and unanswered when the stream ended
 	RacerOK  int       `json:"racer_ok"`
 	RacerErr int       `json:"racer_err"`
 	Trace    []string  `json:"trace,omitempty"`
@@ -176,6 +184,9 @@ func c04Run(cs c04Case, checkGoroutines bool) (res c04Res) {
 	if family != "opaque" {
 		fkey += "/errv:" + family
 	}
+	if cs.Tail > 0 && cs.Via == "" && (cs.Fault == "cut" || cs.Fault == "err") {
+		fkey += "/data+err" // a defect that needs the last bytes and the error in one Read is not the one that shows with any reader
+	}
 	if cs.Via == "ssh" {
 		fkey = "ssh/" + cs.Fault
 		if cs.Fault == "cut" {
@@ -201,6 +212,7 @@ func c04Run(cs c04Case, checkGoroutines bool) (res c04Res) {
 	}
 	var client *sftp.Client
 	var peer c04Peer
+	var fpeer *faultPeer // nil over ssh
 	var err error
 	if cs.Via == "ssh" {
 		stderrText := ""
@@ -217,7 +229,7 @@ func c04Run(cs c04Case, checkGoroutines bool) (res c04Res) {
 			trace = append(trace, fmt.Sprintf("write-call#%d fails: %v", call, ferr))
 			mu.Unlock()
 		}, copts...)
-		peer = fp
+		peer, fpeer = fp, fp
 	}
 	if err != nil {
 		fail("tie/new-client", err.Error(), nil)
@@ -231,6 +243,32 @@ func c04Run(cs c04Case, checkGoroutines bool) (res c04Res) {
 	jrng := rand.New(rand.NewSource(cs.Seed ^ 0x5bd1))
 	var sendMu sync.Mutex
 	var evs []connEv // arrivals, complete replies and the end of the reply stream, in the order this peer saw / did them
+	var held []byte  // data+err: the last bytes before the cut, not written yet — they go out together with the terminal error (set by the server goroutine under sendMu)
+	doCutLocked := func() {
+		if cutDone.Load() {
+			return
+		}
+		how := ""
+		switch {
+		case len(held) > 0 && fpeer != nil:
+			terr := ferr
+			if cs.Fault != "err" {
+				terr = io.EOF
+			}
+			fpeer.FailOutputData(held, terr)
+			how = fmt.Sprintf(" (the last %d bytes in the same Read as the error)", len(held))
+		case cs.Fault == "err":
+			peer.FailOutput(ferr)
+		default:
+			peer.CutOutput()
+		}
+		mu.Lock()
+		res.CutAt = sent
+		trace = append(trace, fmt.Sprintf("cut@%d%s", sent, how))
+		evs = append(evs, connEv{K: "E"})
+		mu.Unlock()
+		cutDone.Store(true)
+	}
 	doCut := func() {
 		if cutDone.Load() {
 			return
@@ -238,20 +276,7 @@ func c04Run(cs c04Case, checkGoroutines bool) (res c04Res) {
 		// sendMu: the log must show a reply before the cut exactly when it was delivered before the cut
 		sendMu.Lock()
 		defer sendMu.Unlock()
-		if cutDone.Load() {
-			return
-		}
-		if cs.Fault == "err" {
-			peer.FailOutput(ferr)
-		} else {
-			peer.CutOutput()
-		}
-		mu.Lock()
-		res.CutAt = sent
-		trace = append(trace, fmt.Sprintf("cut@%d", sent))
-		evs = append(evs, connEv{K: "E"})
-		mu.Unlock()
-		cutDone.Store(true)
+		doCutLocked()
 	}
 	if (cs.Fault == "cut" || cs.Fault == "err") && cs.At == 0 {
 		doCut()
@@ -302,15 +327,43 @@ func c04Run(cs c04Case, checkGoroutines bool) (res c04Res) {
 			if cs.Fault == "cut" || cs.Fault == "err" {
 				budget = cs.At - sent
 			}
+			hold := 0
+			if budget >= 0 && len(frame) >= budget && cs.Tail > 0 && fpeer != nil {
+				hold = min(cs.Tail, budget) // the cut falls into this frame or ends it: its last bytes before the cut wait for the error
+			}
 			if budget >= 0 && len(frame) > budget {
-				if budget > 0 {
-					peer.Reply(frame[:budget])
+				sendMu.Lock()
+				if budget-hold > 0 {
+					peer.Reply(frame[:budget-hold])
 				}
+				held = frame[budget-hold : budget]
 				mu.Lock()
 				sent += budget
 				trace = append(trace, fmt.Sprintf("reply#%d partial %d/%d", p.ID(), budget, len(frame)))
 				mu.Unlock()
-				doCut()
+				doCutLocked()
+				sendMu.Unlock()
+				continue
+			}
+			if hold > 0 {
+				// the complete reply, its last `hold` bytes in the same Read as the terminal error: it HAS been received completely
+				sendMu.Lock()
+				var rerr error
+				if len(frame)-hold > 0 {
+					rerr = peer.Reply(frame[:len(frame)-hold])
+				}
+				if rerr == nil {
+					held = frame[len(frame)-hold:]
+					mu.Lock()
+					rec.delivered = true
+					evs = append(evs, connEv{K: "r", ID: p.ID(), T: connTok(frame)})
+					sent += len(frame)
+					res.Frames = append(res.Frames, len(frame))
+					trace = append(trace, fmt.Sprintf("reply#%d full", p.ID()))
+					mu.Unlock()
+				}
+				doCutLocked()
+				sendMu.Unlock()
 				continue
 			}
 			sendMu.Lock()
@@ -529,6 +582,9 @@ func c04Run(cs c04Case, checkGoroutines bool) (res c04Res) {
 	defer mu.Unlock()
 	res.NReq = nreq
 	res.NWrites, _ = peer.WriteCounts()
+	if fpeer != nil {
+		res.DataErr = fpeer.R.DataErrReads()
+	}
 	res.Trace = trace
 	for _, rec := range recs {
 		if !rec.delivered {
@@ -703,7 +759,7 @@ func c04Run(cs c04Case, checkGoroutines bool) (res c04Res) {
 func checkC04(c *lib.Ctx) {
 	r := c.R
 	thorough := c.Tier == "thorough"
-	r.Rule = "scenario = [open] + one operation + [File.Close] on a real Client against a fake server, with 0…8 racing goroutines that keep starting Stat/Lstat/ReadLink/RealPath/Mkdir on the same Client. Operations: cmd/vh/cli_ops.go (single calls; ReadDir; single-chunk, sequential and concurrent multi-chunk ReadAt/WriteTo/WriteAt/Write/ReadFrom incl. readers with Len/Size/Stat/*io.LimitedReader and ReadFromWithConcurrency 0/2/1000; ReadDir/ReadDirContext over several READDIR batches, Walk, Glob, RemoveAll and MkdirAll over a two-level tree). Option variants: every operation under MaxPacketUnchecked (default), MaxPacketChecked, the MaxPacket alias and UseFstat(true); the transfers also under their own variants (UseFstat on/off, UseConcurrentReads false/true, UseConcurrentWrites true/false, MaxConcurrentRequestsPerFile 1/2 and combinations: the table Vars in cli_ops.go) — quick: default variant at full density, own variants at frame boundaries −1/0/+1, universal variants at frame boundaries; thorough: default and own variants at every byte offset, universal variants at the quick density; the fault-free run of every variant must return the same results as the default one. Family ssh: the same scenarios on a Client made by sftp.NewClient over an in-process x/crypto/ssh connection (loopback TCP; session stdin as writer, stderr copier with and without CopyStderrTo, Wait asking the session): the server sends exit-status 0 / 3 / none and closes the channel after N reply bytes, the TCP connection is dropped after N reply bytes, or the channel is closed after k requests; 9 operations (thorough: all). Faults: reply stream ended by EOF (cut) or by a Read error (err) after N bytes — thorough: every N in 0…len(stream); quick: every frame boundary −1/0/+1 and PRNG offsets —; client→server stream closed by the peer after k requests (failinput), every k; the client's k-th Write call and every later one fail while the reply stream stays alive (failwrite), every k (header and payload writes are separate calls). ERROR VALUES of the failing Read/Write: the table cliErrKinds (opaque sentinel and type, io.EOF, %w-wrapped / doubly wrapped / *net.OpError-wrapped / Is-method / errors.Join'ed EOF, io.ErrUnexpectedEOF plain and wrapped, io.ErrClosedPipe, os.ErrClosed in *os.PathError, net.ErrClosed, os.ErrDeadlineExceeded plain and in *net.OpError, EPIPE / ECONNRESET in *net.OpError, bare EPIPE): failinput and failwrite × every k × every value (quick, single-request operations: one value per family + 2 rotating); err × every offset × one rotating value plus every value at 4 offsets (thorough: every offset × every value). With racers: PRNG offsets, values and seeds. Oracles: a call with a request whose reply was not delivered completely, or that could not be written, returns a non-nil error (never a truncated success; Glob, which documents that it swallows I/O errors, exempt); a call whose replies were all delivered returns the result of the fault-free run; Stat, ReadDir, File.ReadAt, File.WriteAt started after the fault fail; nothing hangs (20 s); Wait and Close return; the goroutine table is polled ≤ 5 s for goroutines created by pkg/sftp. Family flood (c04_atclose.go) — what holds AT THE MOMENT Client.Close RETURNS: N single-request calls (Stat/Lstat/ReadLink/RealPath/Mkdir) in flight on N goroutines (quick: 300, 2000, 20000; thorough: 100 … 5000, 8000, 20000), none answered, two goroutines in Client.Wait, 0…8 racers whose calls are answered; the connection ends by Client.Close (the peer ends its output when its input ends), or by the peer ending the reply stream (EOF / a Read error value of the table) with Client.Close called within 0…120 µs of it, either order; under GOMAXPROCS 1, 2, 4, 8 (thorough: also 3, 16); 2…40 independent trials per case. Right after Close has returned one goroutine dump (stop-the-world: a consistent picture) is taken: no goroutine started by pkg/sftp may still execute package code (one that has only its entry function left is exiting), nobody may still be parked in Wait, no call may still be parked waiting for its result; then, without any further event, Wait and every outstanding call return (the calls with an error), a later call fails, the goroutine table is free of pkg/sftp. Non-trivial = fault injected; distinct by (operation, fault, offset, error value, racers, seed, GOMAXPROCS)."
+	r.Rule = "scenario = [open] + one operation + [File.Close] on a real Client against a fake server, with 0…8 racing goroutines that keep starting Stat/Lstat/ReadLink/RealPath/Mkdir on the same Client. Operations: cmd/vh/cli_ops.go (single calls; ReadDir; single-chunk, sequential and concurrent multi-chunk ReadAt/WriteTo/WriteAt/Write/ReadFrom incl. readers with Len/Size/Stat/*io.LimitedReader and ReadFromWithConcurrency 0/2/1000; ReadDir/ReadDirContext over several READDIR batches, Walk, Glob, RemoveAll and MkdirAll over a two-level tree). Option variants: every operation under MaxPacketUnchecked (default), MaxPacketChecked, the MaxPacket alias and UseFstat(true); the transfers also under their own variants (UseFstat on/off, UseConcurrentReads false/true, UseConcurrentWrites true/false, MaxConcurrentRequestsPerFile 1/2 and combinations: the table Vars in cli_ops.go) — quick: default variant at full density, own variants at frame boundaries −1/0/+1, universal variants at frame boundaries; thorough: default and own variants at every byte offset, universal variants at the quick density; the fault-free run of every variant must return the same results as the default one. Family ssh: the same scenarios on a Client made by sftp.NewClient over an in-process x/crypto/ssh connection (loopback TCP; session stdin as writer, stderr copier with and without CopyStderrTo, Wait asking the session): the server sends exit-status 0 / 3 / none and closes the channel after N reply bytes, the TCP connection is dropped after N reply bytes, or the channel is closed after k requests; 9 operations (thorough: all). Faults: reply stream ended by EOF (cut) or by a Read error (err) after N bytes — thorough: every N in 0…len(stream); quick: every frame boundary −1/0/+1 and PRNG offsets —; client→server stream closed by the peer after k requests (failinput), every k; the client's k-th Write call and every later one fail while the reply stream stays alive (failwrite), every k (header and payload writes are separate calls). ERROR VALUES of the failing Read/Write: the table cliErrKinds (opaque sentinel and type, io.EOF, %w-wrapped / doubly wrapped / *net.OpError-wrapped / Is-method / errors.Join'ed EOF, io.ErrUnexpectedEOF plain and wrapped, io.ErrClosedPipe, os.ErrClosed in *os.PathError, net.ErrClosed, os.ErrDeadlineExceeded plain and in *net.OpError, EPIPE / ECONNRESET in *net.OpError, bare EPIPE): failinput and failwrite × every k × every value (quick, single-request operations: one value per family + 2 rotating); err × every offset × one rotating value plus every value at 4 offsets (thorough: every offset × every value). READ BEHAVIOUR of the transport at the moment of failure (pipes; cli_faultpeer.go faultReader): the terminal error comes from a Read call of its own (all of the above), or TOGETHER WITH THE LAST BYTES in one Read call (n > 0 and io.EOF resp. the error value, as io.Reader allows): at every reply boundary — the reply that ends there has been received completely, its caller gets it — with 1, 2, 3, 5 bytes, the body, the frame less one byte, or the whole frame including its length word arriving with the error (quick, default variant: EOF × 3 lengths, error × 3 lengths × rotating values, every value at one PRNG boundary × 2 lengths; other variants: one or two rotating; thorough: every boundary × every value × {1, body, frame}, every offset × 3), and one byte before / one and five bytes after every boundary (a partial frame whose last bytes come with the error). With racers: PRNG offsets, values and seeds (one in three with the last 1…9 bytes in the same Read as the error). Oracles: a call with a request whose reply was not delivered completely, or that could not be written, returns a non-nil error (never a truncated success; Glob, which documents that it swallows I/O errors, exempt); a call whose replies were all delivered returns the result of the fault-free run; Stat, ReadDir, File.ReadAt, File.WriteAt started after the fault fail; nothing hangs (20 s); Wait and Close return; the goroutine table is polled ≤ 5 s for goroutines created by pkg/sftp. Family flood (c04_atclose.go) — what holds AT THE MOMENT Client.Close RETURNS: N single-request calls (Stat/Lstat/ReadLink/RealPath/Mkdir) in flight on N goroutines (quick: 300, 2000, 20000; thorough: 100 … 5000, 8000, 20000), none answered, two goroutines in Client.Wait, 0…8 racers whose calls are answered; the connection ends by Client.Close (the peer ends its output when its input ends), or by the peer ending the reply stream (EOF / a Read error value of the table) with Client.Close called within 0…120 µs of it, either order; under GOMAXPROCS 1, 2, 4, 8 (thorough: also 3, 16); 2…40 independent trials per case. Right after Close has returned one goroutine dump (stop-the-world: a consistent picture) is taken: no goroutine started by pkg/sftp may still execute package code (one that has only its entry function left is exiting), nobody may still be parked in Wait, no call may still be parked waiting for its result; then, without any further event, Wait and every outstanding call return (the calls with an error), a later call fails, the goroutine table is free of pkg/sftp. Non-trivial = fault injected; distinct by (operation, fault, offset, error value, racers, seed, GOMAXPROCS)."
 	workers := runtime.NumCPU()
 	if workers > 16 {
 		workers = 16
@@ -894,6 +950,67 @@ func checkC04(c *lib.Ctx) {
 					}
 				}
 			}
+			// ---- the transport's READ behaviour at the moment of failure: data and the terminal error in the SAME Read call ----
+			// at every reply boundary (the reply that ends there was received completely: its caller gets it), one byte
+			// before and one / five bytes after it (a partial frame), EOF and error values, for several lengths of the part
+			// that comes with the error: 1 byte … the body … the whole frame including its length word
+			{
+				tailsOf := func(f int) []int { return []int{1, f - 4, 2, f, 3, f - 1, 5} }
+				pick := func(f, k int) int { t := tailsOf(f); return max(1, t[k%len(t)]) }
+				rk := func(k int) string { return rkinds[(rot+k)%len(rkinds)] }
+				allAt := -1
+				if len(d.Frames) > 0 {
+					allAt = c.Rand.Intn(len(d.Frames))
+				}
+				for fi, f := range d.Frames {
+					b := bounds[fi+1]
+					switch p.level {
+					case 3:
+						for _, t := range []int{1, f - 4, f} {
+							add(c04Case{Fault: "cut", At: b, Tail: max(1, t)})
+							add(c04Case{Fault: "err", At: b, Tail: max(1, t)})
+							for _, k := range rkinds {
+								add(c04Case{Fault: "err", At: b, Tail: max(1, t), Err: k})
+							}
+						}
+					case 2:
+						add(c04Case{Fault: "cut", At: b, Tail: 1})
+						add(c04Case{Fault: "cut", At: b, Tail: max(1, f-4)})
+						add(c04Case{Fault: "cut", At: b, Tail: pick(f, fi+2)})
+						add(c04Case{Fault: "err", At: b, Tail: f})
+						add(c04Case{Fault: "err", At: b, Tail: pick(f, fi), Err: rk(2 * fi)})
+						add(c04Case{Fault: "err", At: b, Tail: pick(f, fi+1), Err: rk(2*fi + 1)})
+						if fi == allAt {
+							for j, k := range rkinds {
+								add(c04Case{Fault: "err", At: b, Tail: 1, Err: k})
+								add(c04Case{Fault: "err", At: b, Tail: pick(f, j+1), Err: k})
+							}
+						}
+					case 1:
+						add(c04Case{Fault: "cut", At: b, Tail: pick(f, fi)})
+						add(c04Case{Fault: "err", At: b, Tail: pick(f, fi+1), Err: rk(fi)})
+					default:
+						if fi%2 == 0 {
+							add(c04Case{Fault: "cut", At: b, Tail: pick(f, fi/2)})
+						} else {
+							add(c04Case{Fault: "err", At: b, Tail: pick(f, fi/2), Err: rk(fi)})
+						}
+					}
+					if p.level >= 1 {
+						// a partial frame whose last bytes come with the error
+						add(c04Case{Fault: []string{"cut", "err"}[fi%2], At: b - 1, Tail: 1 + fi%3, Err: map[bool]string{true: rk(fi)}[fi%2 == 1]})
+						add(c04Case{Fault: []string{"err", "cut"}[fi%2], At: b + 1, Tail: 1, Err: map[bool]string{true: rk(fi + 1)}[fi%2 == 0]})
+						add(c04Case{Fault: []string{"cut", "err"}[fi%2], At: min(b+5, total), Tail: 1 + (fi+1)%5})
+					}
+				}
+				if p.level == 3 {
+					for n := 1; n <= total; n++ {
+						add(c04Case{Fault: "cut", At: n, Tail: 1 + n%3})
+						add(c04Case{Fault: "err", At: n, Tail: 1 + (n+1)%4, Err: rk(n)})
+						add(c04Case{Fault: "cut", At: n, Tail: 9 + n%24})
+					}
+				}
+			}
 			// ---- client→server: every request index / every Write call × every error value ----
 			// (quick, operations of a single request: one value of every family and two more, rotating)
 			own := 0
@@ -943,7 +1060,8 @@ func checkC04(c *lib.Ctx) {
 						errv = rkinds[c.Rand.Intn(len(rkinds))]
 					}
 					// the racers' replies share the stream: offsets up to a few times the scenario's own stream
-					add(c04Case{Fault: fault, At: c.Rand.Intn(total*(1+racers) + 2), Racers: racers, Seed: c.Rand.Int63(), Err: errv})
+					// (one in three with the last 1…9 bytes in the same Read as the error)
+					add(c04Case{Fault: fault, At: c.Rand.Intn(total*(1+racers) + 2), Racers: racers, Seed: c.Rand.Int63(), Err: errv, Tail: []int{0, 0, 1 + c.Rand.Intn(9)}[c.Rand.Intn(3)]})
 				}
 				nw := 1
 				if p.level == 3 {
@@ -1051,7 +1169,7 @@ func checkC04(c *lib.Ctx) {
 			}
 			continue
 		}
-		r.Case(fmt.Sprintf("%s/%s%s@%d/r%d/s%d/e%s%s/p%d", cliOpKey(cs.Op, cs.Opt), cs.Via, cs.Fault, cs.At, cs.Racers, cs.Seed, cs.Err, cs.Exit, cs.Procs), cs.Fault != "none")
+		r.Case(fmt.Sprintf("%s/%s%s@%d/r%d/s%d/e%s%s/p%d/t%d", cliOpKey(cs.Op, cs.Opt), cs.Via, cs.Fault, cs.At, cs.Racers, cs.Seed, cs.Err, cs.Exit, cs.Procs, cs.Tail), cs.Fault != "none")
 		if cs.Op == c04FloodOp {
 			r.Hist(fmt.Sprintf("at-close-return/calls-in-flight/%d", cs.At))
 			r.Hist(fmt.Sprintf("at-close-return/gomaxprocs/%d", cs.Procs))
@@ -1113,6 +1231,28 @@ func checkC04(c *lib.Ctx) {
 			connReqs += res.Conn.NReq
 		}
 		racerErr += res.RacerErr
+		if cs.Via == "" && (cs.Fault == "cut" || cs.Fault == "err") {
+			switch {
+			case cs.Tail == 0:
+				r.Hist("read-at-failure/error-in-a-Read-of-its-own/" + cs.Fault)
+			case res.DataErr == 0:
+				r.Hist("read-at-failure/data+err-asked-but-the-stream-ended-elsewhere/" + cs.Fault)
+			default:
+				at := "inside-a-frame"
+				tot := 0
+				for _, f := range res.Frames {
+					tot += f
+				}
+				if tot == res.CutAt {
+					at = "at-a-reply-boundary"
+				}
+				r.Hist("read-at-failure/data+err/" + cs.Fault + "/" + at)
+				r.Hist(fmt.Sprintf("read-at-failure/data+err/bytes-with-the-error/%s", map[bool]string{true: fmt.Sprint(cs.Tail), false: "9+"}[cs.Tail < 9]))
+				if cs.Fault == "err" {
+					r.Hist("read-at-failure/data+err/error-value/" + map[bool]string{true: "custom", false: cs.Err}[cs.Err == ""])
+				}
+			}
+		}
 		r.Hist(fmt.Sprintf("in-flight-at-loss/%d", min(res.InFlight, 9)))
 		for _, cl := range res.Calls {
 			if !strings.HasPrefix(cl.Name, "after/") {
